@@ -101,6 +101,19 @@ Theorem C33_seed_agreement_for_accepted_mpks :
 Proof. exact vrf_seed_agreement_accepted. Qed.
 Print Assumptions C33_seed_agreement_for_accepted_mpks.
 
+(* The keys shares are verified against are a function of the FINAL set of public polynomials
+   only: AggregatePublicKeyShares rebuilds the map, so a DKG object aggregated again after the
+   set changed (view change retried) holds, for every id of the final set, the same key share as
+   an object built freshly from the final set, namely the public key of dkg_sk css id. *)
+Theorem C33_public_aggregation_depends_on_final_set_only :
+  forall (F : fieldType) (G2 : lmodType F) (g2 : G2) (old1 old2 : seq (F * G2))
+         (css : seq (seq F)) (ids : seq F) (i : F),
+    let mpks := [seq dkg_mpk g2 cs | cs <- css] in
+    dkg_agg_pub old1 mpks ids = dkg_agg_pub old2 mpks ids /\
+    (i \in ids -> (i, dkg_pub g2 (dkg_sk css i)) \in dkg_agg_pub old1 mpks ids).
+Proof. exact (fun F G2 g2 old1 old2 css ids i => conj (dkg_agg_pub_forgets old1 old2 _ ids) (@dkg_agg_pub_keys F G2 g2 old1 css ids i)). Qed.
+Print Assumptions C33_public_aggregation_depends_on_final_set_only.
+
 (* The same for any two sets of at least t verified shares of distinct miners. *)
 Theorem C33_seed_of_any_verified_set :
   forall (F : fieldType) (G1 G2 GT : lmodType F) (g2 : G2) (M : Type) (H : M -> G1)
